@@ -127,6 +127,7 @@ func discharge(sc *Script, obls []*Obligation, outDir string, secs int, thorough
 			defer wg.Done()
 			defer func() { <-sem }()
 			file := filepath.Join(outDir, fmt.Sprintf("o%04d.smt2", i))
+			tag := "; obligation: " + o.Name + "  " + o.Src + "\n"
 			// first with the bit-vector/Int conversions abstracted (fast, sound for proofs); only if
 			// that does not prove the goal, with their exact definitions (needed for real models)
 			// Stages: relevance-sliced queries first (sound: fewer hypotheses), then the full one; a
@@ -138,16 +139,16 @@ func discharge(sc *Script, obls []*Obligation, outDir string, secs int, thorough
 				short = 5
 			}
 			for _, depth := range []int{1, 2} {
-				r = runSolvers(sc.query(o.Pos, o.Goal, false, abs, depth), file, short, false)
+				r = runSolvers(tag+sc.query(o.Pos, o.Goal, false, abs, depth), file, short, false)
 				if r.status == "unsat" {
 					break
 				}
 			}
 			if r.status != "unsat" && abs {
-				r = runSolvers(sc.query(o.Pos, o.Goal, false, true, 0), file, secs, thorough)
+				r = runSolvers(tag+sc.query(o.Pos, o.Goal, false, true, 0), file, secs, thorough)
 			}
 			if r.status != "unsat" {
-				r = runSolvers(sc.query(o.Pos, o.Goal, true, false, 0), file, secs, thorough)
+				r = runSolvers(tag+sc.query(o.Pos, o.Goal, true, false, 0), file, secs, thorough)
 			}
 			o.Status, o.Solver, o.Secs = r.status, r.solver, r.secs
 			if r.status == "unsat" && os.Getenv("GOVC_KEEP") == "" && o.Kind != "cover" && o.Kind != "vacuity" {
